@@ -399,6 +399,10 @@ func (sc acctScenario) alphabet(disciplined bool) func(info json.RawMessage, dep
 					for _, req := range sc.reqs {
 						ops = append(ops, Op{K: "update", S: si, MUs: mkMUs(req), Seq: seq})
 					}
+					if (us == "all" || us == "half") && (sc.extras || sc.split) {
+						// a pure usage report: no requestedUnit member, no trigger (the usage is still consumed from the reservation)
+						ops = append(ops, Op{K: "update", S: si, MUs: mkMUs(-1), Seq: seq})
+					}
 					if us == "zero" || us == "all" || us == "over" {
 						ops = append(ops, Op{K: "update", S: si, MUs: mkMUs(-1), Trig: []string{"FINAL"}, Seq: seq})
 						ops = append(ops, Op{K: "release", S: si, MUs: mkMUs(-1), Trig: []string{"FINAL"}, Seq: seq})
